@@ -478,8 +478,8 @@ Group:
                                 if dirName and "ups_dir" in info:
                                     dirName = os.path.join(dirName, info["ups_dir"])
 
-                                if dirName and eups.utils.isSubpath(info[k], dirName):
-                                    info[k] = re.sub("^%s/" % dirName, "", info[k])
+                                if dirName and info[k].startswith(dirName + "/"):
+                                    info[k] = info[k][len(dirName) + 1:]
 
                     if os.path.isabs(info[k]):
                         if info[k] != trimDir:
